@@ -29,6 +29,16 @@ def Status.cls : Status → String
   | .unexpectedEOF => "UnexpectedEOF"
   | .err _ => "Other"
 
+/-- the status with which `newRangeDecoder` fails on the bytes `seg` it can see: the first byte is read and checked
+    (a non-zero one is rejected) BEFORE the other four are read, so a short segment with a non-zero first byte is a
+    format error, not a truncation -/
+def initStatus (seg : List Nat) : Status :=
+  match seg with
+  | [] => .unexpectedEOF
+  | b0 :: _ =>
+    if b0 ≠ 0 then .err "range decoder init"
+    else if seg.length < 5 then .unexpectedEOF else .err "range decoder init"
+
 /-- output so far and the part of it that forms the dictionary -/
 structure Hist where
   out : ByteArray
